@@ -9,6 +9,7 @@ import (
 	"math/rand"
 	"os"
 	"strings"
+	"sync"
 	"sync/atomic"
 	"time"
 
@@ -21,20 +22,35 @@ func init() { Drivers["secure"] = drvSecure }
 
 // SecureScenario is one cell exported by spec/Secure.tla.
 type SecureScenario struct {
-	ID      string `json:"id"`
-	Kind    string `json:"kind"`
-	Marker  string `json:"marker"`
-	Accept  string `json:"accept"`
-	Enforce bool   `json:"enforce"`
-	Keys    string `json:"keys"`
-	KeyLen  int    `json:"keylen"`
-	Codec   string `json:"codec"`
-	Body    string `json:"body"`
-	ReqEnc  bool   `json:"reqenc"`
-	Invoked bool   `json:"invoked"`
-	ReplyEn string `json:"replyenc"`
-	Status  string `json:"status"`
-	Resend  bool   `json:"resend"`
+	ID       string `json:"id"`
+	Kind     string `json:"kind"`
+	Marker   string `json:"marker"`
+	Accept   string `json:"accept"`
+	Enforce  bool   `json:"enforce"`
+	Keys     string `json:"keys"`
+	KeyLen   int    `json:"keylen"`
+	Codec    string `json:"codec"`
+	Body     string `json:"body"`
+	ReqEnc   bool   `json:"reqenc"`
+	Invoked  bool   `json:"invoked"`
+	ReplyEn  string `json:"replyenc"`
+	Status   string `json:"status"`
+	Resend   bool   `json:"resend"`
+	Prev     string `json:"prev"`
+	SwapSeed bool   `json:"swapseed"`
+	Conc     bool   `json:"conc"`
+}
+
+// secMute suppresses the handlers' recording (exchanges that only prepare the session, or the concurrent batch).
+var secMute int32
+
+// swapSeeder leaves an entry in the swap of every accepted session, as an authentication plugin would.
+type swapSeeder struct{}
+
+func (swapSeeder) Name() string { return "verif-swap-seeder" }
+func (swapSeeder) PostAccept(s erpc.PreSession) *erpc.Status {
+	s.Swap().Store("user", "alice")
+	return nil
 }
 
 var secEnforce int32
@@ -45,6 +61,9 @@ var secWant atomic.Value // expected argument (tag|pad)
 type SJ struct{ erpc.CallCtx }
 
 func (c *SJ) Call(arg *Arg) (*Res, *erpc.Status) {
+	if atomic.LoadInt32(&secMute) == 1 {
+		return &Res{Tag: F(arg.Tag), Pad: arg.Pad}, nil
+	}
 	secRec.Emit("HEnter", "kind", "call", "argok", arg.Tag+"|"+arg.Pad == secWant.Load().(string))
 	if atomic.LoadInt32(&secEnforce) == 1 {
 		secure.EnforceSecure(c.Output())
@@ -55,6 +74,9 @@ func (c *SJ) Call(arg *Arg) (*Res, *erpc.Status) {
 type SJP struct{ erpc.PushCtx }
 
 func (c *SJP) Push(arg *Arg) *erpc.Status {
+	if atomic.LoadInt32(&secMute) == 1 {
+		return nil
+	}
 	secRec.Emit("HEnter", "kind", "push", "argok", arg.Tag+"|"+arg.Pad == secWant.Load().(string))
 	return nil
 }
@@ -62,6 +84,12 @@ func (c *SJP) Push(arg *Arg) *erpc.Status {
 type SP struct{ erpc.CallCtx }
 
 func (c *SP) Call(arg *pb.Payload) (*pb.Payload, *erpc.Status) {
+	if atomic.LoadInt32(&secMute) == 1 {
+		if atomic.LoadInt32(&secEnforce) == 1 {
+			secure.EnforceSecure(c.Output())
+		}
+		return &pb.Payload{ServiceMethod: F(arg.ServiceMethod), Body: arg.Body}, nil
+	}
 	secRec.Emit("HEnter", "kind", "call", "argok", arg.ServiceMethod+"|"+string(arg.Body) == secWant.Load().(string))
 	if atomic.LoadInt32(&secEnforce) == 1 {
 		secure.EnforceSecure(c.Output())
@@ -72,6 +100,9 @@ func (c *SP) Call(arg *pb.Payload) (*pb.Payload, *erpc.Status) {
 type SPP struct{ erpc.PushCtx }
 
 func (c *SPP) Push(arg *pb.Payload) *erpc.Status {
+	if atomic.LoadInt32(&secMute) == 1 {
+		return nil
+	}
 	secRec.Emit("HEnter", "kind", "push", "argok", arg.ServiceMethod+"|"+string(arg.Body) == secWant.Load().(string))
 	return nil
 }
@@ -116,9 +147,20 @@ func drvSecure(args []string) int {
 	return 0
 }
 
+// rsSafe derives a short deterministic alphanumeric string from a number (usable from several goroutines).
+func rsSafe(k int) string {
+	b := make([]byte, 6)
+	x := uint32(k)*2654435761 + 12345
+	for i := range b {
+		x = x*1664525 + 1013904223
+		b[i] = alnum[(x>>16)%uint32(len(alnum))]
+	}
+	return string(b)
+}
+
 func runSecure(rec *Rec, sc *SecureScenario, n int, rnd *rand.Rand) {
 	rec.SetTrace(sc.ID, map[string]interface{}{"mode": "secure", "kind": sc.Kind, "marker": sc.Marker, "accept": sc.Accept, "enforce": sc.Enforce,
-		"keys": sc.Keys, "keylen": sc.KeyLen, "codec": sc.Codec, "body": sc.Body, "reqenc": sc.ReqEnc, "invoked": sc.Invoked, "replyenc": sc.ReplyEn, "status": sc.Status, "resend": sc.Resend})
+		"keys": sc.Keys, "keylen": sc.KeyLen, "codec": sc.Codec, "body": sc.Body, "reqenc": sc.ReqEnc, "invoked": sc.Invoked, "replyenc": sc.ReplyEn, "status": sc.Status, "resend": sc.Resend, "prev": sc.Prev, "swapseed": sc.SwapSeed, "conc": sc.Conc})
 	key := func() string {
 		b := make([]byte, sc.KeyLen)
 		for i := range b {
@@ -136,7 +178,11 @@ func runSecure(rec *Rec, sc *SecureScenario, n int, rnd *rand.Rand) {
 	} else {
 		atomic.StoreInt32(&secEnforce, 0)
 	}
-	srv := erpc.NewPeer(erpc.PeerConfig{DefaultBodyCodec: "json"}, secure.NewPlugin(9999, k2))
+	srvPlugins := []erpc.Plugin{secure.NewPlugin(9999, k2)}
+	if sc.SwapSeed {
+		srvPlugins = append(srvPlugins, swapSeeder{})
+	}
+	srv := erpc.NewPeer(erpc.PeerConfig{DefaultBodyCodec: "json"}, srvPlugins...)
 	cli := erpc.NewPeer(erpc.PeerConfig{DefaultBodyCodec: "json"}, secure.NewPlugin(9999, k1))
 	srv.RouteCall(new(SJ))
 	srv.RoutePush(new(SJP))
@@ -247,6 +293,78 @@ func runSecure(rec *Rec, sc *SecureScenario, n int, rnd *rand.Rand) {
 		r := new(Res)
 		arg, res, read = &Arg{Tag: tag, Pad: pad}, r, func() (string, string) { return r.Tag, r.Pad }
 	}
+	tapBase := 0
+	inBase := 0
+	if sc.Prev == "secure" {
+		// an earlier secure call on this session (refused when the keys differ); it is not part of the observation
+		atomic.StoreInt32(&secMute, 1)
+		var parg, pres interface{} = &Arg{Tag: "prev" + rs(8), Pad: "prevpad"}, new(Res)
+		if sc.Codec == "p" {
+			parg, pres = &pb.Payload{ServiceMethod: "prev" + rs(8), Body: []byte("prevpad")}, new(pb.Payload)
+		}
+		proute := "/sj/call"
+		if sc.Codec == "p" {
+			proute = "/sp/call"
+		}
+		pd := make(chan struct{})
+		go func() {
+			cs.Call(proute, parg, pres, erpc.WithBodyCodec(sc.Codec[0]), secure.WithSecureMeta())
+			close(pd)
+		}()
+		select {
+		case <-pd:
+		case <-time.After(2 * time.Second):
+		}
+		time.Sleep(time.Millisecond)
+		atomic.StoreInt32(&secMute, 0)
+		if a != nil {
+			o, i := a.Tapped()
+			tapBase, inBase = len(o), len(i)
+		}
+	}
+	if sc.Conc {
+		// 8 goroutines x 30 exchanges with the scenario's markers at the same time; each checks its own result
+		atomic.StoreInt32(&secMute, 1)
+		var wg sync.WaitGroup
+		var okN, wrong, errs int32
+		total := 8 * 30
+		for g := 0; g < 8; g++ {
+			wg.Add(1)
+			go func(g int) {
+				defer wg.Done()
+				for i := 0; i < 30; i++ {
+					t := fmt.Sprintf("conc-%d-%d-%s", g, i, rsSafe(g*100+i))
+					var ca, cr interface{}
+					var rd func() string
+					if sc.Codec == "p" {
+						r := new(pb.Payload)
+						ca, cr, rd = &pb.Payload{ServiceMethod: t, Body: []byte(t)}, r, func() string { return r.ServiceMethod + "|" + string(r.Body) }
+					} else {
+						r := new(Res)
+						ca, cr, rd = &Arg{Tag: t, Pad: t}, r, func() string { return r.Tag + "|" + r.Pad }
+					}
+					cmd := cs.Call(route, ca, cr, settings...)
+					switch {
+					case !cmd.StatusOK():
+						atomic.AddInt32(&errs, 1)
+					case rd() == F(t)+"|"+t:
+						atomic.AddInt32(&okN, 1)
+					default:
+						atomic.AddInt32(&wrong, 1)
+					}
+				}
+			}(g)
+		}
+		wd := make(chan struct{})
+		go func() { wg.Wait(); close(wd) }()
+		select {
+		case <-wd:
+		case <-time.After(20 * time.Second):
+		}
+		atomic.StoreInt32(&secMute, 0)
+		rec.Emit("ConcDone", "total", total, "ok", atomic.LoadInt32(&okN), "wrong", atomic.LoadInt32(&wrong), "errs", atomic.LoadInt32(&errs))
+		return
+	}
 	if sc.Kind == "call" {
 		done := make(chan erpc.CallCmd, 1)
 		go func() { done <- cs.Call(route, arg, res, settings...) }()
@@ -274,6 +392,9 @@ func runSecure(rec *Rec, sc *SecureScenario, n int, rnd *rand.Rand) {
 		out, inb = fw.tapped()
 	} else {
 		out, inb = a.Tapped()
+		if tapBase <= len(out) && inBase <= len(inb) {
+			out, inb = out[tapBase:], inb[inBase:] // only the bytes of the observed exchange
+		}
 	}
 	// the tag is searched verbatim; for JSON bodies the pad's special characters are escaped, so the
 	// alphanumeric head of the pad is searched as well
